@@ -262,7 +262,8 @@ class Ctx:
         os.makedirs(self.replay_dir, exist_ok=True)
         body = {"property": self.prop, "sub": sub, "case": jsonable(case),
                 "message": message[:4000], "seed": self.seed,
-                "tier": self.tier, "shard": self.shard}
+                "tier": self.tier, "shard": self.shard,
+                "boundscheck": self.boundscheck}
         name = f"{self.prop}_{sub}_{case_hash(case)[:12]}.json"
         path = os.path.join(self.replay_dir, name)
         with open(path, "w", encoding="utf-8") as f:
